@@ -431,6 +431,8 @@ func c05(w *core.World, r *core.Report) {
 	ruleFinishRemovesOwnSegment(w, r)
 	r.Rule("R05.15", "every log segment starts with a fresh running checksum (reset at every rotation)", 1)
 	ruleOpenFileResetsChecksum(w, r)
+	r.Rule("R05.16", "after a restart the newest-segment marker is the last element of the sorted segment list", 1)
+	ruleNewestSegmentFromSortedList(w, r)
 }
 
 func ruleCheckThenAcquire(w *core.World, r *core.Report) {
@@ -916,6 +918,8 @@ func c08(w *core.World, r *core.Report) {
 	ruleNoSelfDeadlock(w, r, "no-self-deadlock")
 	r.Rule("R08.9", "every data set built from a directory goes through the gap truncation and the snapshot/log joint test", 1)
 	ruleScanAlwaysTruncates(w, r)
+	r.Rule("R08.10", "a snapshot is 'still being written' (not verified) only when it exists under its temporary name", 1)
+	ruleWritingOnlyForTmpName(w, r)
 }
 
 func ruleRdbCommit(w *core.World, r *core.Report) {
